@@ -29,6 +29,61 @@ pub static C12: C12P = C12P;
 struct W {
     rt: Arc<Runtime<NoCtx>>,
     prof: Profile,
+    excl: Vec<String>,
+    pool: Vec<std::sync::mpsc::Sender<Job>>,
+}
+
+/// work for one pool thread: sub-cases for the built-in catalogue, run after the gate opens
+struct Job {
+    chunk: Vec<u8>,
+    gate: Arc<std::sync::atomic::AtomicUsize>,
+    parties: usize,
+    reply: std::sync::mpsc::Sender<Result<(u64, bool, (u128, u128), String), (String, String)>>,
+}
+
+const POOL: usize = 4;
+const SUB_LEN: usize = 20;
+
+fn pool_thread(rx: std::sync::mpsc::Receiver<Job>, excl: Vec<String>, t0: Instant) {
+    // every thread has its own package (get_function needs exclusive access); the built-in
+    // functions themselves are process-wide, which is what is under test
+    let mut bw = crate::props::c17::BuiltinWorker::new(crate::builtins::Mode::Semantic, &excl);
+    while let Ok(job) = rx.recv() {
+        use std::sync::atomic::Ordering;
+        job.gate.fetch_add(1, Ordering::SeqCst);
+        let mut spins = 0u32;
+        while job.gate.load(Ordering::SeqCst) < job.parties {
+            spins += 1;
+            if spins % 64 == 0 {
+                std::thread::yield_now();
+            } else {
+                std::hint::spin_loop();
+            }
+        }
+        let start = t0.elapsed().as_nanos();
+        let mut evals = 0u64;
+        let mut nt = false;
+        let mut sample = String::new();
+        let mut res = Ok(());
+        for piece in job.chunk.chunks(SUB_LEN) {
+            let o = crate::worker::guarded(|| bw.run_case(&vec![piece.to_vec()], true));
+            match o.verdict {
+                Verdict::Fail => {
+                    res = Err((o.sig, o.msg));
+                    break;
+                }
+                _ => {
+                    evals += o.evals;
+                    nt |= o.nontrivial;
+                    if sample.is_empty() {
+                        sample = o.render.unwrap_or_default();
+                    }
+                }
+            }
+        }
+        let end = t0.elapsed().as_nanos();
+        let _ = job.reply.send(res.map(|_| (evals, nt, (start, end), sample)));
+    }
 }
 
 struct Probe {
@@ -60,6 +115,11 @@ const PROBES: &[Probe] = &[
         name: "rc-inside-registered-val-type",
         must_reject: true,
         src: "#[derive(Clone, PartialEq)]\nstruct Wrap(Rc<i64>);\nfn main() {\n    let _t = roto::Type::clone::<roto::Val<Wrap>>(\"Wrap\", \"\", location!()).unwrap();\n}\n",
+    },
+    Probe {
+        name: "cell-inside-registered-val-type",
+        must_reject: true,
+        src: "#[derive(Clone, PartialEq)]\nstruct Wrap(Cell<i64>);\nfn main() {\n    let _t = roto::Type::clone::<roto::Val<Wrap>>(\"Wrap\", \"\", location!()).unwrap();\n}\n",
     },
     Probe {
         name: "cell-inside-constant",
@@ -165,6 +225,9 @@ impl WorkerState for W {
         if case.first().map(|c| c.as_slice()) == Some(b"#!probe") {
             let i = case.get(1).and_then(|c| c.first().copied()).unwrap_or(0) as usize;
             return run_probe(i);
+        }
+        if case.get(2).and_then(|c| c.first()).map(|b| b % 4 == 3).unwrap_or(false) {
+            return self.builtins_under_threads(case, render);
         }
         let empty: Vec<u8> = Vec::new();
         let prog = self.program(case.first().unwrap_or(&empty), case.get(1).unwrap_or(&empty));
@@ -302,6 +365,76 @@ impl WorkerState for W {
 }
 
 impl W {
+    /// (c) the built-in catalogue of C17 called from several threads at once, every call
+    /// compared with the documented meaning (which does not depend on other threads)
+    fn builtins_under_threads(&mut self, case: &Case, render: bool) -> Outcome {
+        if self.pool.is_empty() {
+            let t0 = Instant::now();
+            for _ in 0..POOL {
+                let (tx, rx) = std::sync::mpsc::channel::<Job>();
+                let excl = self.excl.clone();
+                std::thread::Builder::new().stack_size(64 << 20).spawn(move || pool_thread(rx, excl, t0)).expect("pool thread");
+                self.pool.push(tx);
+            }
+        }
+        let empty: Vec<u8> = Vec::new();
+        let n_threads = 2 + case.get(2).and_then(|c| c.get(1)).map(|b| (*b as usize * 3) >> 8).unwrap_or(0);
+        let gate = Arc::new(std::sync::atomic::AtomicUsize::new(0));
+        let (rtx, rrx) = std::sync::mpsc::channel();
+        // the same or different argument streams per thread
+        let same = case.get(2).and_then(|c| c.get(2)).map(|b| *b < 100).unwrap_or(false);
+        for t in 0..n_threads {
+            let src = if same { case.first() } else { case.get(if t % 2 == 0 { 0 } else { 1 }) }.unwrap_or(&empty);
+            let mut chunk = src.clone();
+            if !same {
+                let by = (t * SUB_LEN).min(chunk.len().saturating_sub(1));
+                chunk.rotate_left(by);
+            }
+            let job = Job { chunk, gate: gate.clone(), parties: n_threads, reply: rtx.clone() };
+            if self.pool[t].send(job).is_err() {
+                return Outcome::fail("crash:pool-thread-died", "a pool thread died in an earlier case".to_string());
+            }
+        }
+        drop(rtx);
+        let mut spans = Vec::new();
+        let mut evals = 0;
+        let mut nt = false;
+        let mut sample = String::new();
+        let mut fail: Option<(String, String)> = None;
+        for _ in 0..n_threads {
+            match rrx.recv_timeout(std::time::Duration::from_secs(100)) {
+                Ok(Ok((e, n, sp, s))) => {
+                    evals += e;
+                    nt |= n;
+                    spans.push(sp);
+                    if sample.is_empty() {
+                        sample = s;
+                    }
+                }
+                Ok(Err(f)) => fail = Some(f),
+                Err(_) => return Outcome::fail("crash:pool-thread-died", "a pool thread did not answer".to_string()),
+            }
+        }
+        if let Some((sig, msg)) = fail {
+            let mut f = Outcome::fail(format!("concurrent-builtin:{sig}"), format!("called from {n_threads} threads at once:\n{msg}"));
+            f.render = Some(msg);
+            return f;
+        }
+        let overlapped = spans.iter().enumerate().any(|(i, a)| spans.iter().enumerate().any(|(j, b)| i != j && a.0 < b.1 && b.0 < a.1));
+        let mut o = Outcome::pass();
+        o.evals = evals;
+        o.nontrivial = overlapped && nt;
+        o.classes.push("built-ins-under-threads".into());
+        if overlapped {
+            o.classes.push("threads-overlapped".into());
+        }
+        o.hash = fnv(&case.concat());
+        if render {
+            o.render = Some(format!("built-in catalogue from {n_threads} threads ({} argument streams); first call: {sample}", if same { "identical" } else { "different" }));
+        }
+        o
+    }
+
     fn program(&self, s0: &[u8], s1: &[u8]) -> Program {
         let mut rets: Vec<Ty> = SCALAR_TYS.to_vec();
         rets.push(Ty::Unit);
@@ -315,7 +448,7 @@ impl Prop for C12P {
         "C12"
     }
     fn rule(&self) -> String {
-        "(a) stress: generated programs of the ownership profile (strings, lists, records, tracked host values, host calls); 2-8 threads released by a barrier make 50-200 calls each on clones of one handle with rotating input vectors while 0-2 further threads compile the same script, get the function and drop package and handle; oracle: every call returns the single-threaded result and produces the single-threaded host-call log, tracked values balance after all threads joined, no crash (worker isolation). Non-trivial: at least two calling threads overlapped in time (start/end stamps) and the function allocates or calls a host function. (b) nine rustc probes (Cell and RefCell captures shared through scoped threads or a cloned handle must be rejected, Rc control must be rejected, Atomic / Mutex / plain fn controls must be accepted), type-checked against the harness's libroto; distinct by program text / probe".into()
+        "(a) stress: generated programs of the ownership profile (strings, lists, records, tracked host values, host calls); 2-8 threads released by a barrier make 50-200 calls each on clones of one handle with rotating input vectors while 0-2 further threads compile the same script, get the function and drop package and handle; oracle: every call returns the single-threaded result and produces the single-threaded host-call log, tracked values balance after all threads joined, no crash (worker isolation). Non-trivial: at least two calling threads overlapped in time (start/end stamps) and the function allocates or calls a host function. (c) one case in four: the built-in catalogue of C17 (strings, views, lists incl. join, numbers, addresses) called from 2-4 pool threads at once, each with its own package, identical or different argument streams, every call compared with the documented meaning; (b) ten rustc probes (Cell and RefCell captures shared through scoped threads or a cloned handle must be rejected, Rc control must be rejected, Atomic / Mutex / plain fn controls must be accepted), type-checked against the harness's libroto; distinct by program text / probe".into()
     }
     fn assumptions(&self) -> Vec<String> {
         vec![
@@ -338,7 +471,7 @@ impl Prop for C12P {
     fn worker(&self, excl: &[String]) -> Box<dyn WorkerState> {
         let mut prof = profile_for(Kind::C03, excl);
         prof.budget = 160;
-        Box::new(W { rt: Arc::new(host::build_runtime()), prof })
+        Box::new(W { rt: Arc::new(host::build_runtime()), prof, excl: excl.to_vec(), pool: Vec::new() })
     }
     fn timeout_ms(&self) -> u64 {
         120_000
